@@ -1,7 +1,7 @@
 (* C02 - exotic cells: level masks, per-level hashes and depths, Merkle pruning invariance. *)
 From Coq Require Import NArith ZArith List.
 From PTQ Require Import Base.Result Base.Bytes Base.Bits Base.Sha256 Model.Cell Spec.CellRepr Spec.CellWf
-  Model.Inst Proofs.CellExotic.
+  Model.Inst Proofs.CellExotic Proofs.CellReprAll.
 Import ListNotations.
 Local Open Scope N_scope.
 
@@ -22,6 +22,14 @@ Theorem C02_levels : forall c, wf_exotic c = true -> depth_okb sha256 c = true -
       get_depth k (N.of_nat l) = Ok (s_depth_at sha256 c l).
 Proof. exact (exotic_levels sha256 sha256_len). Qed.
 Print Assumptions C02_levels.
+
+(* asked for its hash or depth at or above its own level, every constructed cell of a spec-valid tree answers with its
+   representation hash (Cell.hash) and its top depth: levels above the cell's own add nothing *)
+Theorem C02_top_level : forall c k L, wf_exotic c = true -> build sha256 c = Ok k ->
+  lm_level (k_mask k) <= L -> L <= 4 ->
+  k_mask k <= 7 /\ get_hash k L = Ok (k_hash k) /\ get_depth k L = Ok (last (k_depths k) 0).
+Proof. exact (top_level_all sha256). Qed.
+Print Assumptions C02_top_level.
 
 (* replacing a level-0 subtree t, j Merkle cells below the root, by the pruned branch that carries
    its hash and depth leaves the level-0 hash and depth of the enclosing tree unchanged.
